@@ -20,9 +20,10 @@
      "by id" and nothing checks that the id of row i is i.
    * `n_edges` (explicit or scanned) only sizes a progress bar.  `n_vertices` (explicit or scanned) is the
      length of `adj` and `rev`; it is NOT the length of `vertices`.
-   * a row whose source is >= n_vertices is not entered in `adj` (the vertex id goes to a local
-     `missing_vertices` set that is dropped); independently, a row whose destination is >= n_vertices is not
-     entered in `rev`.  The row is still in `edges`.  No error is raised.
+   * a row whose source is >= n_vertices is not entered in `adj` and a row whose destination is >= n_vertices
+     is not entered in `rev`; the vertex id goes to `missing_vertices`, and once all rows are read a non-empty
+     `missing_vertices` fails the load with DatasetError (since /repo 75c7433; before, the set was dropped and
+     such a row silently appeared in one adjacency direction only).
    * adjacency maps are CompactOrderedHashMap<EdgeId, VertexId> filled with `insert` in row order; a repeated
      edge id leaving the same vertex overwrites the stored destination and keeps its position. *)
 From Coq Require Import List Arith Bool String.
@@ -76,10 +77,17 @@ Section Loader.
   Definition load_edges (n_vertices : nat) (rows : list edge) : lstate :=
     fold_left edge_cb rows (init_state n_vertices).
 
-  (* the Graph assembled by graph_from_files once the sizes are known; `missing_vertices` is dropped *)
+  (* the Graph assembled from a loader state and the vertex rows *)
   Definition build (n_vertices : nat) (erows : list edge) (vrows : list vertex) : graph :=
     let st := load_edges n_vertices erows in
     mkGraph (l_adj st) (l_rev st) erows vrows.
+
+  (* EdgeLoader::try_from after the rows are read, followed by the vertex loader and the assembly of Graph *)
+  Definition load (n_vertices : nat) (erows : list edge) (vrows : list vertex) : res graph :=
+    match l_missing (load_edges n_vertices erows) with
+    | [] => Ok (build n_vertices erows vrows)
+    | _ :: _ => Err "DatasetError"
+    end.
 
   (* ---------------- graph_loader.rs ---------------- *)
   Record files := mkFiles {
@@ -95,7 +103,7 @@ Section Loader.
   Definition graph_from_files (f : files) (n_edges n_vertices : option nat) : res graph :=
     do _ne <- match n_edges with Some n => Ok n | None => get_n (f_edge_lines f) end;
     do nv <- match n_vertices with Some n => Ok n | None => get_n (f_vertex_lines f) end;
-    Ok (build nv (f_edge_rows f) (f_vertex_rows f)).
+    load nv (f_edge_rows f) (f_vertex_rows f).
 
   (* ---------------- graph.rs ---------------- *)
   Inductive direction := Forward | Reverse.
@@ -201,35 +209,39 @@ Section Loader.
     mapM (fun e => do a <- s_vertex vrows v; do b <- s_vertex vrows (s_terminal e d); Ok (a, e, b))
          (s_incident rows v d).
 
-  (* the hypotheses under which the specification is claimed (documented input format: ids are row
-     indices; every end point is a listed vertex; a file is a header line plus one line per row; an
-     explicit vertex count, when given, is the true one) *)
+  (* the hypotheses (documented input format: ids are row indices; a file is a header line plus one line per
+     row; an explicit vertex count, when given, is the true one) and the condition the loader itself checks
+     (every end point is a listed vertex) *)
   Definition ids_are_rows (rows : list edge) : Prop := map e_id rows = seq 0 (List.length rows).
   Definition vids_are_rows (vrows : list vertex) : Prop := map v_id vrows = seq 0 (List.length vrows).
   Definition ends_below (n : nat) (rows : list edge) : Prop :=
     Forall (fun e => e_src e < n /\ e_dst e < n) rows.
-  Definition wf (f : files) (nv : option nat) : Prop :=
+  (* the format part: everything except the end points *)
+  Definition wf_format (f : files) (nv : option nat) : Prop :=
     ids_are_rows (f_edge_rows f) /\ vids_are_rows (f_vertex_rows f)
-    /\ ends_below (List.length (f_vertex_rows f)) (f_edge_rows f)
     /\ f_edge_lines f = S (List.length (f_edge_rows f))
     /\ f_vertex_lines f = S (List.length (f_vertex_rows f))
     /\ (nv = None \/ nv = Some (List.length (f_vertex_rows f))).
+  Definition wf (f : files) (nv : option nat) : Prop :=
+    wf_format f nv /\ ends_below (List.length (f_vertex_rows f)) (f_edge_rows f).
 
-  (* the same, decidable (used by the runner to decide whether a case is inside the hypotheses) *)
+  (* the same, decidable (used by the runner to decide what the specification says about a case) *)
   Fixpoint nat_list_eqb (a b : list nat) : bool :=
     match a, b with
     | [], [] => true
     | x :: r, y :: s => Nat.eqb x y && nat_list_eqb r s
     | _, _ => false
     end.
-  Definition wfb (f : files) (nv : option nat) : bool :=
+  Definition formatb (f : files) (nv : option nat) : bool :=
     nat_list_eqb (map e_id (f_edge_rows f)) (seq 0 (List.length (f_edge_rows f)))
     && nat_list_eqb (map v_id (f_vertex_rows f)) (seq 0 (List.length (f_vertex_rows f)))
-    && forallb (fun e => Nat.ltb (e_src e) (List.length (f_vertex_rows f))
-                         && Nat.ltb (e_dst e) (List.length (f_vertex_rows f))) (f_edge_rows f)
     && Nat.eqb (f_edge_lines f) (S (List.length (f_edge_rows f)))
     && Nat.eqb (f_vertex_lines f) (S (List.length (f_vertex_rows f)))
     && match nv with None => true | Some n => Nat.eqb n (List.length (f_vertex_rows f)) end.
+  Definition endsb (n : nat) (rows : list edge) : bool :=
+    forallb (fun e => Nat.ltb (e_src e) n && Nat.ltb (e_dst e) n) rows.
+  Definition wfb (f : files) (nv : option nat) : bool :=
+    formatb f nv && endsb (List.length (f_vertex_rows f)) (f_edge_rows f).
 End Loader.
 
 (* ---------------- per-edge tables: read_utils::read_raw_file ---------------- *)
